@@ -52,7 +52,7 @@ def ang_close(a, b, tol=1e-6):
     return min(d, 2 * math.pi - d) < tol
 
 
-def check_interp(res, spec, frames_real, rep, mism, tag):
+def check_interp(res, spec, frames_real, rep, mism, tag, storage=None):
     from perception_eval.common.schema import FrameID
 
     den = spec["den"]
@@ -69,6 +69,8 @@ def check_interp(res, spec, frames_real, rep, mism, tag):
     ego2map = res.transforms[(FrameID.BASE_LINK, FrameID.MAP)]
     for u, w in want.items():
         o = got[u]
+        if storage is not None and not (o.frame_id == storage):
+            mism.append(("interp-frame-id" + tag, "interpolated object %s is expressed in %s, the loaded objects in %s" % (u, o.frame_id, storage), rep))
         pos, rot = (o.state.position, o.state.orientation)
         if not (o.frame_id == "map"):
             pos, rot = ego2map.transform(o.state.position, o.state.orientation)
@@ -123,7 +125,7 @@ def replay(arg):
                 elif ri is not real[sp["idx"] - 1]:
                     mism.append(("interp-wrong-neighbour", "interpolating lookup returned another frame than %d" % sp["idx"], rep))
             else:
-                check_interp(ri, sp, real, rep, mism, tag)
+                check_interp(ri, sp, real, rep, mism, tag, storage=rendering)
                 # the same query again, and a query at the before-neighbour's own time, on the SAME loaded frames
                 check_interp(get_interpolated_now_frame(real, tq, tolq), sp, real, rep, mism, ":second-lookup")
             for f, (t0_, objs0, tf0) in zip(real, snap):
